@@ -1013,6 +1013,21 @@ Lemma dmat_roundtrip_4 v01 v02 v03 v10 v12 v13 v20 v21 v23 v30 v31 v32 inv d :
   dmat_of_dict d = Ok (mkDm [nA; nB; nC; nD] [[z0; v01; v02; v03]; [v10; z0; v12; v13]; [v20; v21; z0; v23]; [v30; v31; v32; z0]] inv).
 Proof. intros Hd. injection Hd as <-. reflexivity. Qed.
 
+(** reading back a FULL pairs dict never uses the mirror fill: a stored (a, b) wins whatever (b, a) holds, so an
+    asymmetric matrix keeps both of its triangles *)
+Lemma dm_cell_stored_lemma T a b v : pget T a b = Some v -> dm_cell T a b = v.
+Proof. intros H. unfold dm_cell. now rewrite H. Qed.
+
+Lemma dm_cell_mirror_lemma T a b : pget T a b = None ->
+  dm_cell T a b = match pget T b a with Some v => v | None => JFloat float_zero end.
+Proof. intros H. unfold dm_cell. now rewrite H. Qed.
+
+(** an asymmetric 3 x 3 matrix, every cell different, NaN included: identical after the round trip *)
+Lemma dmat_asymmetric_example_lemma :
+  let m := mkDm [nA; nB; nC] [[z0; JFloat [49]; JFloat [50]]; [JFloat [55; 46; 53]; z0; JFloat [110; 97; 110]]; [JFloat [57]; JFloat [56]; z0]] JNull in
+  exists d, dmat_to_dict m = JObj d /\ dmat_of_dict d = Ok m.
+Proof. eexists. split; [reflexivity|]. vm_compute. reflexivity. Qed.
+
 (** names that are not sorted come back SORTED (the matrix permuted with them) *)
 Lemma dmat_name_order_refuted_lemma :
   exists m d m', dmat_to_dict m = JObj d /\ dmat_of_dict d = Ok m' /\ dm_names m = [nC; nA; nB] /\ dm_names m' = [nA; nB; nC] /\ m' <> m.
